@@ -272,22 +272,24 @@ def ord11(P, R, L):
     notif = [c.bb for c in b.calls_to(NOTIFY_WRITER) if not b.is_cleanup(c.bb)]
     ok = False
     detail = "no is_empty test after the pop loop"
-    for e in emp:
+    # "the queue is not empty" is established either by `!queue.is_empty()` or by `if let Some(head) = queue.front()`
+    cands = [(e, [ft for t in bool_tests(b, e.dest["l"]) for ft in t.err]) for e in emp]
+    for fr in [c for c in b.calls_to("std::collections::VecDeque::front") if not b.is_cleanup(c.bb)]:
+        cands.append((fr, [x for t in option_tests(b, fr.dest["l"]) for x in t.ok]))
+    for e, nonempty in cands:
         if not any(e.bb in b.reachable(p.bb) for p in pops):
             continue
         # every path from pop loop exit to return passes this test
         passes = all(b.must_pass(r, through_nodes=[e.bb] + [g.bb for g in gres], through_edges=exc_edges) for r in b.return_blocks())
-        tests = bool_tests(b, e.dest["l"])
-        good = passes and bool(tests)
-        for t in tests:
-            for ft in t.err:   # queue not empty
-                for r in b.return_blocks():
-                    if not b.must_pass(r, through_nodes=notif, start=ft):
-                        good = False
-                        detail = "non-empty queue edge reaches return without notify_writer"
+        good = passes and bool(nonempty)
+        for ft in nonempty:
+            for r in b.return_blocks():
+                if not b.must_pass(r, through_nodes=notif, start=ft):
+                    good = False
+                    detail = "non-empty queue edge reaches return without notify_writer"
         if good:
             ok = True
-            detail = "is_empty test at line %s; non-empty edge always notifies" % e.line
+            detail = "emptiness test at line %s; non-empty edge always notifies" % e.line
     R.check("ORD-11", APPLY + "|notify-new-head", ok, "%s:%d" % (b.file, b.line_lo),
             "after popping its group the leader notifies the new head of a non-empty queue", detail)
     # followers popped by the leader are woken: inside the pop loop the not-self edge reaches notify_writer
